@@ -45,9 +45,10 @@ class Outcome:
 class Hazard:
     """A condition under which evaluating an expression raises."""
 
-    __slots__ = ("kind", "safe", "node", "what", "state", "pc_len")
+    __slots__ = ("kind", "safe", "node", "what", "state", "pc_len", "may")
 
-    def __init__(self, kind, safe, node=None, what="", state=None, pc_len=None):
+    def __init__(self, kind, safe, node=None, what="", state=None, pc_len=None, may=False):
+        self.may = may  # the exception MAY be raised when `safe` is false (an inexact raises clause): continuing does not establish `safe`
         self.pc_len = pc_len  # number of path-condition facts that existed when the hazard was met
         self.kind = kind  # KeyError, IndexError, TypeError, Requires, ...
         self.safe = safe  # z3 Bool: evaluation does NOT raise here
